@@ -65,8 +65,12 @@ T_Cost == IsEvent("Cost") /\ CB /\ pc = "done"
           /\ (EntityMustNotExpand(scn.c) /\ ~Dev("PlainXmlParser") => ~Ev.expanded)
           /\ Same
 
+\* how the size is obtained is not prescribed (Path.stat, os.path.getsize, fstat ...): the Stat event is optional
+RF_NoStat == /\ RF /\ pc = "start" /\ scn.max > 0 /\ pc' = "guard"
+             /\ UNCHANGED <<scn, hist, st, inmem, ondisk, outcome, work, cur>>
+
 SilentStep == /\ Silent
-              /\ \/ RF_Disabled \/ RF_Pass \/ SZ_Pass
+              /\ \/ RF_Disabled \/ RF_Pass \/ SZ_Pass \/ RF_NoStat
                  \/ \E m \in Members : MB_Skip(m) \/ MB_Drop(m) \/ MB7_Filter(m) \/ MB7_Read(m)
                  \/ MB7_Filtered \/ MB7_Unpacked
                  \/ CB_OdsCell \/ CB_OdsRowEnd \/ CB_OdsSheetEnd \/ CB_Expand \/ CB_Finish
